@@ -30,12 +30,12 @@ an empty `<2>` line —, every supplier letter decoded through the listing's own
 indentation (blanks and/or tabs), number and shape of blank lines, further reference lines and the
 final newline are arbitrary.  (Until fix a3fb5a0 an empty `<2>` line came back as `[""]` and this
 statement was false of the code — former known finding C16-empty-isoschizomers.) -/
-theorem parse_listing (sups : List Supplier) (recs : List Rec) (ℓ : Layout) (h : wfListing sups recs ℓ = true) :
+theorem parse_listing (sups : List Supplier) (recs : List Rec) (ℓ : Spec.RebaseListing.Layout) (h : wfListing sups recs ℓ = true) :
     parse (listing sups recs ℓ) = .ok (expectedMap sups recs) :=
   parse_listing_core sups recs ℓ h
 
 /-- with pairwise different names the map has exactly one entry per record, in the order written -/
-theorem parse_listing_entries (sups : List Supplier) (recs : List Rec) (ℓ : Layout) (h : wfListing sups recs ℓ = true)
+theorem parse_listing_entries (sups : List Supplier) (recs : List Rec) (ℓ : Spec.RebaseListing.Layout) (h : wfListing sups recs ℓ = true)
     (hn : namesNodup recs = true) :
     parse (listing sups recs ℓ) = .ok (recs.map fun r => (r.name, enzymeOf sups r)) := by
   rw [parse_listing sups recs ℓ h, expectedMap_of_nodup sups recs hn]
@@ -48,7 +48,8 @@ theorem suppliers_decoded (sups : List Supplier) (s : Supplier) (hs : s ∈ sups
 /-! ### export and re-import -/
 
 /-- **the JSON export parses back to the same map** (JSON-value level): importing the exported
-value yields the entries of `m` in sorted key order, for every map -/
+value yields the entries of `m` in sorted key order, for every association list `m` (a Go map when the
+keys are distinct: `export_roundtrip_perm`) -/
 theorem export_roundtrip (m : List (Str × Enzyme)) : importJ (exportJ m) = some (sortedEntries {} m) :=
   importJ_exportJ tags_nodup m
 
@@ -71,12 +72,12 @@ theorem export_text_roundtrip_perm (m : List (Str × Enzyme)) (hnd : (m.map (·.
   ⟨_, export_text_roundtrip m, sortedEntries_perm {} m hnd⟩
 
 /-- the map `Parse` returns for a listing survives Export (as text) and re-import -/
-theorem parse_export_text_roundtrip (sups : List Supplier) (recs : List Rec) (ℓ : Layout) (h : wfListing sups recs ℓ = true) :
+theorem parse_export_text_roundtrip (sups : List Supplier) (recs : List Rec) (ℓ : Spec.RebaseListing.Layout) (h : wfListing sups recs ℓ = true) :
     ∃ m m', parse (listing sups recs ℓ) = .ok m ∧ importText (exportText m) = some m' ∧ m'.Perm m :=
   ⟨_, _, parse_listing sups recs ℓ h, export_text_roundtrip _, sortedEntries_perm {} _ (expectedMap_keys_nodup sups recs)⟩
 
 /-- the map `Parse` returns for a listing survives Export and re-import (value level) -/
-theorem parse_export_roundtrip (sups : List Supplier) (recs : List Rec) (ℓ : Layout) (h : wfListing sups recs ℓ = true) :
+theorem parse_export_roundtrip (sups : List Supplier) (recs : List Rec) (ℓ : Spec.RebaseListing.Layout) (h : wfListing sups recs ℓ = true) :
     ∃ m m', parse (listing sups recs ℓ) = .ok m ∧ importJ (exportJ m) = some m' ∧ m'.Perm m :=
   ⟨_, _, parse_listing sups recs ℓ h, export_roundtrip _, sortedEntries_perm {} _ (expectedMap_keys_nodup sups recs)⟩
 
@@ -88,10 +89,10 @@ def sampleRecs : List Rec :=
       org := "Acetobacter aceti".toList, src := "M. Fukaya".toList, codes := ['K', 'N'], refs := "Tagami, H., (1988)".toList,
       moreRefs := ["Another, A., Unpublished observations.".toList] },
     { name := "AbaI".toList, isos := [], recog := "T^GATCA".toList, meth := [], org := [], src := [], codes := [], refs := [] } ]
-def spacesLayout : Layout :=
+def spacesLayout : Spec.RebaseListing.Layout :=
   { prose := ["REBASE version 104".toList, [' '], "<ENZYME NAME>   Restriction enzyme name.".toList],
     indent := List.replicate 16 ' ' }
-def tabsLayout : Layout := { indent := ['\t'], blank := [' '], afterHeading := 1, gaps := [0, 2], finalNewline := false }
+def tabsLayout : Spec.RebaseListing.Layout := { indent := ['\t'], blank := [' '], afterHeading := 1, gaps := [0, 2], finalNewline := false }
 
 example : wfListing sampleSups sampleRecs spacesLayout = true := by decide
 example : wfListing sampleSups sampleRecs tabsLayout = true := by decide
